@@ -121,7 +121,7 @@ def cases(tier, rng, ifaces):
     #     message into the next, whatever the chunking, and process must equal run message by message
     from .C02 import gen_message as gen_compound
     for _ in range(150 if tier == 'quick' else 2500):
-        iface = ifaces[rng.choice(['echo', 't1', 't1', 'a1'] + sorted(n for n in ifaces if n.startswith('r')))]
+        iface = ifaces[rng.choice(['echo', 't1', 't1', 'a1', 'g1'] + sorted(n for n in ifaces if n.startswith('r')))]
         msgs = [gen_compound(rng, iface, rng.randint(1, 5), 0.0)[0] for _ in range(rng.randint(2, 4))]
         stream = b''.join(msgs)
         n = rng.choice([x for x in iface.proc_sizes() if x >= max(len(m) for m in msgs)] or [256])
